@@ -110,6 +110,12 @@ func genToken(t *rapid.T, label string) string {
 }
 
 func genText(t *rapid.T, label string) string {
+	if rapid.IntRange(0, 39).Draw(t, label+"long") == 0 {
+		// a long line (longer than any 4 KiB line buffer, shorter than the
+		// 64 KiB a bufio.Scanner accepts)
+		n := rapid.SampledFrom([]int{4000, 4090, 4096, 4097, 5000, 9000, 40000}).Draw(t, label+"longlen")
+		return strings.Repeat("long text ", n/10) + rapid.StringMatching(`[!-~]{1,8}`).Draw(t, label)
+	}
 	n := rapid.IntRange(0, 4).Draw(t, label+"words")
 	var ws []string
 	for i := 0; i < n; i++ {
